@@ -74,7 +74,7 @@ def run_steps(universe, states, rng, n_ops, prefix, values):
     for k, st in enumerate(states):
         steps = []
         for _ in range(n_ops):
-            op, a = sd.random_op(universe, rng, values)
+            op, a = sd.random_op(universe, rng, values, state=st)
             w = sd.World(universe)
             w.set_state(st)
             obs = w.apply(op, a)
@@ -141,8 +141,8 @@ def run_random_traces(universe, rng, n, length, prefix, values):
         init = w.project()
         steps = []
         for _ in range(length):
-            op, a = sd.random_op(universe, rng, values)
             snapshot = w.project()
+            op, a = sd.random_op(universe, rng, values, state=snapshot)
             obs = w.apply(op, a)
             post = w.project()
             if too_big(post):
